@@ -2,8 +2,11 @@
    axioms every registered property theorem depends on; accepted: propext, Classical.choice, Quot.sound. -/
 import GoSquare.Properties.C05
 import GoSquare.Properties.C08
+import GoSquare.Properties.C09
 import GoSquare.Properties.C10
+import GoSquare.Properties.C12
 import GoSquare.Properties.C13
+import GoSquare.Properties.C14
 import GoSquare.Properties.C15
 import GoSquare.Properties.C16
 import GoSquare.Properties.C17
@@ -20,6 +23,13 @@ import GoSquare.Properties.C20
 #print axioms GoSquare.C08.writeAll_eq_layout
 #print axioms GoSquare.sparseWrite_eq_spec
 #print axioms GoSquare.C08.parse_blob
+#print axioms GoSquare.C09.writer_eq_spec
+#print axioms GoSquare.C09.parse_spec
+#print axioms GoSquare.C09.roundtrip
+#print axioms GoSquare.C09.seqLen_and_minimal
+#print axioms GoSquare.export_spec
+#print axioms GoSquare.writeTx_spec
+#print axioms GoSquare.parseRawData_units
 #print axioms GoSquare.C10.blob_shares_are_as_specified
 #print axioms GoSquare.C10.padding_shares_are_as_specified
 #print axioms GoSquare.C10.reserved_and_tail_padding
@@ -28,6 +38,12 @@ import GoSquare.Properties.C20
 #print axioms GoSquare.C10.reservedBytes_spec
 #print axioms GoSquare.C10.accessors_on_blob_shares
 #print axioms GoSquare.C10.accessors_on_padding
+#print axioms GoSquare.C09.writer_eq_spec
+#print axioms GoSquare.C09.seqLen_and_minimal
+#print axioms GoSquare.C12.splitter_range_exact
+#print axioms GoSquare.C12.sharesNeeded_eq_shareOf_last
+#print axioms GoSquare.C12.shareOf_closed_form
+#print axioms GoSquare.C13.counter_history
 #print axioms GoSquare.C13.counter_history
 #print axioms GoSquare.C13.add_increment
 #print axioms GoSquare.C13.add_revert
@@ -35,6 +51,12 @@ import GoSquare.Properties.C20
 #print axioms GoSquare.C13.sparse_inverse
 #print axioms GoSquare.sparseSeq_length
 #print axioms GoSquare.toShares_length
+#print axioms GoSquare.count_spec
+#print axioms GoSquare.C09.writer_eq_spec
+#print axioms GoSquare.C14.splitter_history_independent
+#print axioms GoSquare.C14.same_writes_same_export
+#print axioms GoSquare.C14.J_step
+#print axioms GoSquare.export_spec
 #print axioms GoSquare.C15.roundUp_least_pow2
 #print axioms GoSquare.C15.roundDown_greatest_pow2
 #print axioms GoSquare.C15.isPowerOfTwo_spec
